@@ -101,7 +101,7 @@ def mutations(draw):
     out = []
     for _ in range(n):
         k = draw(st.sampled_from(['attr-value'] * 6 + ['number'] * 4 + ['swap-name'] * 3 + ['attr-drop'] * 2 + ['del-elem'] * 3 + ['dup-elem'] * 2 + ['nest', 'nest', 'param', 'param', 'param',
-                                  'del-span', 'dup-span', 'raw', 'raw', 'encoding', 'truncate']))
+                                  'del-span', 'dup-span', 'raw', 'raw', 'encoding', 'truncate', 'bigtext', 'bigtext']))
         m = {'k': k, 'file': draw(st.sampled_from(['main.xsl', 'main.xsl', 'main.xsl', 'doc.xml', 'other'])), 'at': draw(st.floats(0, 1, exclude_max=True)),
              'len': draw(st.integers(1, 60))}
         if k == 'attr-value' or k == 'param':
@@ -117,6 +117,11 @@ def mutations(draw):
             m['use'] = draw(st.sampled_from(['value-of', 'number-value', 'number-format', 'format-number', 'substring', 'avt', 'position-pred', 'grouping']))
         if k == 'raw':
             m['bytes'] = draw(st.sampled_from(RAW)).decode('latin-1')
+        if k == 'bigtext':
+            # a run of multi-byte characters long enough to cross the 512- and 1024-unit buffers of the writers at every alignment
+            m['ch'] = draw(st.sampled_from(['\xe9', '\u20ac', '\u3042', '\U0001F600', 'a\u20ac', '\u20ac\U0001F600']))
+            m['n'] = draw(st.sampled_from([170, 255, 256, 341, 342, 511, 512, 513, 700, 1023, 1025]))
+            m['pad'] = draw(st.integers(0, 3))
         if k == 'encoding':
             m['v'] = draw(st.sampled_from(ENCODINGS))
         out.append(m)
@@ -147,6 +152,8 @@ def xpath_cases(draw):
         j = min(len(expr), i + draw(st.integers(1, 6)))
         expr = expr[:i] + draw(st.sampled_from(['', '(', ')', '[', ']', '//', '$', ':', '::', '-', "'", '1e999', '\x00', '\ud800'])) + expr[j:]
     c['expr'] = expr
+    if c.get('docform') == 'xerces' and ('<!DOCTYPE' in c['xml'] or '<![CDATA[' in c['xml']):
+        c['docform'] = 'native'     # node keys of the Xerces form differ for these documents (doctype node, CDATA sections)
     return {'kind': 'xpath', 'case': c}
 
 
@@ -198,6 +205,15 @@ def apply_mutations(case):
             data = data[:pos]
         elif k == 'raw':
             data = data[:pos] + m['bytes'].encode('latin-1') + data[pos:]
+        elif k == 'bigtext':
+            # as literal text of the first template (stylesheet) or of the document element (document)
+            if fname.endswith('.xsl'):
+                i = data.find(b'>', data.find(b'<xsl:template')) + 1 if b'<xsl:template' in data else 0
+            else:
+                mroot = re.search(rb'<[A-Za-z_][^<>]*(?<!/)>', data)
+                i = mroot.end() if mroot else 0
+            if i > 0 and data[i - 2:i] != b'/>':
+                data = data[:i] + (b'x' * m['pad']) + (m['ch'] * m['n']).encode('utf-8') + data[i:]
         elif k == 'encoding':
             data = (b'<?xml version="1.0" encoding="' + m['v'].encode('ascii') + b'"?>') + data
         elif k in ('del-elem', 'dup-elem'):
